@@ -6,7 +6,7 @@ CONSTANTS
   ConnOf <- OneConn
   SigOf <- SameSig
   Rounds <- R21
-  EmitSeq <- EmitAA
+  EmitSeq <- EmitA
   QCap = 2
   Dev_ProxySectionsNotAtomic = FALSE
   Dev_SendAfterSnapshot = FALSE
